@@ -9,9 +9,11 @@ pub mod c07;
 pub mod c08;
 pub mod c09;
 pub mod c10;
+pub mod c11;
 pub mod c12;
 pub mod c13;
 pub mod c14;
+pub mod c15;
 pub mod c17;
 pub mod c18;
 pub mod c19;
@@ -28,9 +30,11 @@ pub fn lookup(id: &str) -> Option<Property> {
         "C08" => c08::property(),
         "C09" => c09::property(),
         "C10" => c10::property(),
+        "C11" => c11::property(),
         "C12" => c12::property(),
         "C13" => c13::property(),
         "C14" => c14::property(),
+        "C15" => c15::property(),
         "C17" => c17::property(),
         "C18" => c18::property(),
         "C19" => c19::property(),
